@@ -36,6 +36,7 @@ struct Scheduler {
     ~Scheduler();
 };
 extern Scheduler* g_sched;
+extern thread_local uint64_t tl_hook_calls;   // H1 hook invocations on this thread (a measure of work: one per field multiplication)
 extern void (*g_yield_extra)(void);   // extra action at every H1 yield (dispatch flipping)
 
 } // namespace jv
